@@ -54,6 +54,15 @@ def getCollectionValue(collection, what):
         return None
 
 
+def getSpreadValues(value):
+    # sets and maps are enumerated in sorted order, like everywhere else
+    if value.isSet():
+        return value.getSortedItems()
+    if value.isMap():
+        return value.getSortedKeys()
+    return value.value
+
+
 def getFuncallString(fn, args):
     return f"{fn.name}({args.toStringAbbrev()})"
 
@@ -66,14 +75,15 @@ def invoke(fn, names_, args, environment, pos):
         if isinstance(arg, NodeSpread):
             argvalue = arg.evaluate(environment)
             if argvalue.isMap():
-                for key, value in argvalue.value.items():
+                for key in argvalue.getSortedKeys():
+                    value = argvalue.value[key]
                     values.append(value)
                     if key.isString():
                         names.append(key.value)
                     else:
                         names.append(None)
             else:
-                for value in argvalue.value:
+                for value in getSpreadValues(argvalue):
                     values.append(value)
                     names.append(None)
         else:
@@ -1188,7 +1198,7 @@ class NodeList:
         for item in self.items:
             if isinstance(item, NodeSpread):
                 lst = item.evaluate(environment)
-                for value in lst.value:
+                for value in getSpreadValues(lst):
                     result.addItem(value)
             else:
                 result.addItem(item.evaluate(environment))
